@@ -123,7 +123,37 @@ let strip_case side kind f =
         if cat then cat_pieces pss else String.concat " | " (List.map show_pieces pss)
 
 
+(* partly consumed one-shot iterators: Display / to_string / into_vec / extend *)
+let hexo l = if l = [] then "-" else hexn l
+
+let rec split_at k l = if k = 0 then ([], l) else match l with [] -> ([], []) | x :: r -> let a, b = split_at (k - 1) r in (x :: a, b)
+
+let ssd side f =
+  let data = unhex (List.nth f 0) and k = int_of_string (List.nth f 1) in
+  if not (valid_utf8 (nlist data)) then "INVALID-UTF8"
+  else match side with
+    | `Spec -> "N/A"
+    | `Model ->
+        let ps = unopt (strip_str_pieces (nlist data)) in
+        let a, b = split_at k ps in
+        let cat l = List.concat (List.map (fun p -> p.p_bytes) l) in
+        Printf.sprintf "%s %s %s %s" (hexo (cat a)) (hexo (cat b)) (hexo (cat b)) (hexo (cat b))
+
+let sbx side f =
+  let d1 = unhex (List.nth f 0) and d2 = unhex (List.nth f 1) and k = int_of_string (List.nth f 2) in
+  match side with
+  | `Spec -> "N/A"
+  | `Model ->
+      let (pss, _), _ = unopt (strip_bytes_chunks [ nlist d1; nlist d2 ] Ground u8_new) in
+      let p1 = List.nth pss 0 and p2 = List.nth pss 1 in
+      let a, b = split_at k p1 in
+      let cat l = List.concat (List.map (fun p -> p.p_bytes) l) in
+      Printf.sprintf "%s %s %s 1 %s" (hexo (cat a)) (hexo (cat b)) (hexo (cat b)) (hexo (cat p2))
+
 let () =
+  register "c02big" (fun _ _ -> "N/A");
+  register "ssd" ssd;
+  register "sbx" sbx;
   register "tbl" tbl;
   register "c02" c02;
   register "c02after" c02after;
